@@ -105,6 +105,18 @@ void ContractsMisc() {
   Sink(f0, f1, f2, f3, fs, p0, p1, p2, p3);
 }
 
+#ifdef API_PROBE_KNOWN_5
+// KNOWN_5 (a): a value type that is a standard container of a move-only type (std::vector<std::unique_ptr<T>>, ...) cannot be used
+// with Future / Promise / Task at all: std::is_copy_constructible_v<std::vector<MoveOnly>> is true (unconstrained copy constructor),
+// detail::ResultCore<V, E>::Impl (result_core.hpp:63) takes its copy branch and the copy does not instantiate ("use of deleted
+// function MoveOnly(const MoveOnly&)" from the virtual UniqueCore<V, E>::Here).  notes/api_probe.md #5.
+void Known5() {
+  auto [f, p] = yaclib::MakeContract<std::vector<MoveOnly>>();
+  std::move(p).Set();
+  Sink(f);
+}
+#endif
+
 // ---- async/future.hpp: the non-template members ------------------------------------------------------------------------
 template <template <typename, typename> class H, typename V, typename E>
 void FutureMembers() {
